@@ -1425,8 +1425,11 @@ output_3byte_vex_opcode (OrcCompiler *p, const OrcX86Insn *xinsn)
           byte2 |= orc_vex_get_rex (p, 0, 0, xinsn->src[0]);
           break;
         case ORC_X86_INSN_TYPE_SSEM_SSE:
-        case ORC_X86_INSN_TYPE_IMM8_AVX_SSEM:
           byte2 |= orc_vex_get_rex (p, xinsn->dest, 0, xinsn->src[0]);
+          break;
+        case ORC_X86_INSN_TYPE_IMM8_AVX_SSEM:
+          /* the destination is the r/m operand, the source the reg operand */
+          byte2 |= orc_vex_get_rex (p, xinsn->src[0], 0, xinsn->dest);
           break;
         case ORC_X86_INSN_TYPE_IMM8_SSEM_AVX:
           ORC_COMPILER_ERROR (p, "Invalid VEX.RXB language codegen for opcode type %d", xinsn->opcode->type);
